@@ -5,7 +5,7 @@ from .. import cv, gen, lib, ref
 from ..lib import call
 
 PROP = "C09"
-PLAN = {"quick": (1400, 400), "thorough": (20000, 3600)}
+PLAN = {"quick": (1400, 400), "thorough": (100000, 3600)}
 RULE = ("case = curve of degree 0..4 (Bezier, multi-span, C0 knots of multiplicity p, discontinuities of multiplicity p+1, "
         "non uniform knots, optional weights, scalar / vector points, Fraction / float / numpy knots); D = Derivate(C) is "
         "compared with the differentiated Cox-de Boor recursion (quotient rule for rational curves) at p+1 points of "
